@@ -104,6 +104,24 @@ CHECKS = {
         "Trusted: premise check on float matrices; discards counted.",
         "DESIGN.md section 6, C11",
     ),
+    "C17": (
+        "Hypothesis over train/validation sets x iteration counts x RNG seeds; recording sub-class of SupervisedOPF observes every fit/predict; oracles: multiset conservation, reference accuracies + differential against a fresh fit of the best iteration, arg-min/ancestor-closure matching for relevance flags, sub-multiset + retained==relevant for prune",
+        "Exploration: learn / relevance / prune are exercised on thousands of generated sets with random swap choices; every clause of the statement is decided by an oracle independent of the implementation. Pruning runs that hit known finding K1 (single-class retained set) are evaluated up to the crash and counted.",
+        "Trusted: recording sub-class defined in pbt/props/c17.py; with tied arg-mins any consistent conqueror choice is accepted.",
+        "DESIGN.md section 6, C17 and section 7.2 (K1)",
+    ),
+    "C18": (
+        "Hypothesis over data sets / percentages / seeds / struct-built binary OPF files / label columns (+ atheris byte-driven files in thorough); oracles: partition + pairing + determinism + merge round trip, exact float32 round trip across three formats, rejection iff non-sequential labels",
+        "Exploration: thousands of generated splits, binary files (full finite float32 range, arbitrary ids, 1..30 samples) and label columns are pushed through the public functions and compared with the stored values exactly.",
+        "Trusted: struct-based reference writer of the binary format in pbt/props/c18.py.",
+        "DESIGN.md section 6, C18",
+    ),
+    "C19": (
+        "Hypothesis over model kind x 47 metrics x pre-computed or not x training data; round-trip oracle: snapshot before save == after save == snapshot of a default-constructed model after load; predictions equal",
+        "Exploration: every generated fitted model is saved and loaded into a fresh default-constructed model; full state (nodes, order, scalars, metric name and function behaviour, pre-computed matrix) and predictions on probe batches must be identical, and saving must not alter the original.",
+        "Trusted: snapshot function in pbt/props/c19.py covers the state the predict methods read.",
+        "DESIGN.md section 6, C19",
+    ),
     "C05": (
         "Hypothesis RuleBasedStateMachine + bounded-exhaustive DFS of histories + atheris (libFuzzer) byte-decoded histories, all against a dict reference model",
         "Exploration: generated and (for capacity<=3, costs {0,1,2}, depth<=5/6) exhaustively enumerated operation histories are executed on the real Heap and on a dict model; after every step the returned element, failure reports, emptiness/fullness and colours must agree, and a final drain must return every queued element once in order. No claim beyond the explored histories.",
